@@ -349,7 +349,9 @@ pub(crate) fn blend<S: Sample>(
         let blend_height = clipped_original_frame_region.height as usize;
         let new_alpha_subgrid = |idx: usize| {
             let alpha_region = new_grid.regions_and_shifts()[idx + color_channels].0;
-            let left = clipped_original_frame_region.left.abs_diff(alpha_region.left) as usize;
+            let left = clipped_original_frame_region
+                .left
+                .abs_diff(alpha_region.left) as usize;
             let top = clipped_original_frame_region.top.abs_diff(alpha_region.top) as usize;
             new_grid.buffer()[idx + color_channels]
                 .as_float()
@@ -419,10 +421,14 @@ pub(crate) fn blend<S: Sample>(
         blend_params.width = blend_width;
         blend_params.height = blend_height;
 
-        let new_grid = new_grid.buffer()[idx].as_float().unwrap().as_subgrid().subgrid(
-            new_topleft.0..(new_topleft.0 + blend_width),
-            new_topleft.1..(new_topleft.1 + blend_height),
-        );
+        let new_grid = new_grid.buffer()[idx]
+            .as_float()
+            .unwrap()
+            .as_subgrid()
+            .subgrid(
+                new_topleft.0..(new_topleft.0 + blend_width),
+                new_topleft.1..(new_topleft.1 + blend_height),
+            );
         blend_single(target_subgrid, new_grid, &blend_params);
         output_grid.append_channel(target_grid, target_region);
     }
@@ -461,24 +467,53 @@ pub fn patch(
             let base_grid_region = base_grid_region.downsample_with_shift(base_grid_shift);
             let ref_grid_region = patch_ref_grid.regions_and_shifts()[idx].0;
 
-            let target_patch_region = base_grid_region.intersection(Region {
+            let alpha_idx = matches!(
+                blending_info.mode,
+                PatchBlendMode::BlendAbove
+                    | PatchBlendMode::BlendBelow
+                    | PatchBlendMode::MulAddAbove
+                    | PatchBlendMode::MulAddBelow
+            )
+            .then_some(blending_info.alpha_channel as usize);
+
+            // Every grid involved may cover a different region (e.g. in a cropped render, where an
+            // upsampled alpha channel is rendered only where it is needed); blend where all of them
+            // have samples.
+            let alpha_regions = alpha_idx
+                .filter(|alpha_idx| alpha_idx + color_channels != idx)
+                .map(|alpha_idx| {
+                    let (base_alpha_region, shift) =
+                        base_grid.regions_and_shifts()[alpha_idx + color_channels];
+                    let ref_alpha_region =
+                        patch_ref_grid.regions_and_shifts()[alpha_idx + color_channels].0;
+                    (
+                        base_alpha_region.downsample_with_shift(shift),
+                        ref_alpha_region,
+                    )
+                });
+
+            let mut target_patch_region = base_grid_region.intersection(Region {
                 left: target.x,
                 top: target.y,
                 width: patch_ref.width,
                 height: patch_ref.height,
             });
-            let width = target_patch_region.width;
-            let height = target_patch_region.height;
+            if let Some((base_alpha_region, _)) = alpha_regions {
+                target_patch_region = target_patch_region.intersection(base_alpha_region);
+            }
 
-            let left = target_patch_region.left - target.x;
-            let top = target_patch_region.top - target.y;
-
-            let ref_patch_region = ref_grid_region.intersection(Region {
-                left: patch_ref.x0 as i32 + left,
-                top: patch_ref.y0 as i32 + top,
-                width,
-                height,
-            });
+            let to_ref_x = patch_ref.x0 as i32 - target.x;
+            let to_ref_y = patch_ref.y0 as i32 - target.y;
+            let mut ref_patch_region = target_patch_region
+                .translate(to_ref_x, to_ref_y)
+                .intersection(ref_grid_region);
+            if let Some((_, ref_alpha_region)) = alpha_regions {
+                ref_patch_region = ref_patch_region.intersection(ref_alpha_region);
+            }
+            if ref_patch_region.is_empty() {
+                continue;
+            }
+            let target_patch_region = ref_patch_region.translate(-to_ref_x, -to_ref_y);
 
             let width = ref_patch_region.width as usize;
             let height = ref_patch_region.height as usize;
@@ -488,23 +523,11 @@ pub fn patch(
             let base_left = target_patch_region.left.abs_diff(base_grid_region.left) as usize;
             let base_top = target_patch_region.top.abs_diff(base_grid_region.top) as usize;
 
-            let base_topleft = (base_left, base_top);
-            let new_topleft = (patch_left, patch_top);
-
             let bit_depth = if let Some(ec_idx) = idx.checked_sub(color_channels) {
                 image_header.metadata.ec_info[ec_idx].bit_depth
             } else {
                 image_header.metadata.bit_depth
             };
-
-            let alpha_idx = matches!(
-                blending_info.mode,
-                PatchBlendMode::BlendAbove
-                    | PatchBlendMode::BlendBelow
-                    | PatchBlendMode::MulAddAbove
-                    | PatchBlendMode::MulAddBelow
-            )
-            .then_some(blending_info.alpha_channel as usize);
 
             let base_alpha;
             let new_alpha;
@@ -527,12 +550,24 @@ pub fn patch(
                         l[alpha_idx + color_channels].convert_to_float_modular(alpha_bit_depth)?;
                         (&mut r[0], &l[alpha_idx + color_channels])
                     };
-                    base_alpha = Some(alpha.as_float().unwrap().as_subgrid());
+                    let (base_alpha_region, ref_alpha_region) = alpha_regions.unwrap();
+                    let left = target_patch_region.left.abs_diff(base_alpha_region.left) as usize;
+                    let top = target_patch_region.top.abs_diff(base_alpha_region.top) as usize;
+                    base_alpha = Some(
+                        alpha
+                            .as_float()
+                            .unwrap()
+                            .as_subgrid()
+                            .subgrid(left..(left + width), top..(top + height)),
+                    );
+                    let left = ref_patch_region.left.abs_diff(ref_alpha_region.left) as usize;
+                    let top = ref_patch_region.top.abs_diff(ref_alpha_region.top) as usize;
                     new_alpha = Some(
                         patch_ref_grid.buffer()[alpha_idx + color_channels]
                             .as_float()
                             .unwrap()
-                            .as_subgrid(),
+                            .as_subgrid()
+                            .subgrid(left..(left + width), top..(top + height)),
                     );
                     premultiplied = image_header.metadata.ec_info[alpha_idx].alpha_associated();
                     base
@@ -544,7 +579,11 @@ pub fn patch(
                 &mut base_grid[idx]
             }
             .convert_to_float_modular(bit_depth)?
-            .as_subgrid_mut();
+            .as_subgrid_mut()
+            .subgrid(
+                base_left..(base_left + width),
+                base_top..(base_top + height),
+            );
 
             let Some(mut blend_params) = BlendParams::from_patch_blending_info(
                 idx,
@@ -556,8 +595,8 @@ pub fn patch(
             ) else {
                 continue;
             };
-            blend_params.base_topleft = base_topleft;
-            blend_params.new_topleft = new_topleft;
+            blend_params.base_topleft = (0, 0);
+            blend_params.new_topleft = (0, 0);
             blend_params.width = width;
             blend_params.height = height;
 
@@ -566,7 +605,11 @@ pub fn patch(
                 patch_ref_grid.buffer()[idx]
                     .as_float()
                     .unwrap()
-                    .as_subgrid(),
+                    .as_subgrid()
+                    .subgrid(
+                        patch_left..(patch_left + width),
+                        patch_top..(patch_top + height),
+                    ),
                 &blend_params,
             );
         }
